@@ -239,9 +239,16 @@ class TimeRecurrence:
                 self._repetitions = 1
                 self._duration = None
             elif self._repetitions is not None:
-                self._end_point = (
-                    self._start_point +
-                    self._duration * (self._repetitions - 1))
+                if self._duration.is_exact():
+                    self._end_point = (
+                        self._start_point +
+                        self._duration * (self._repetitions - 1))
+                else:
+                    # Nominal (month/year) intervals do not multiply up:
+                    # the last point is reached by repeated addition.
+                    self._end_point = self._start_point
+                    for _ in range(self._repetitions - 1):
+                        self._end_point = self._end_point + self._duration
         elif self._start_point is None and self._end_point is not None:
             # Fourth form.
             self._format_number = 4
